@@ -1,6 +1,7 @@
 package worker
 
 import (
+	"os"
 	"fmt"
 	"testing"
 	"testing/synctest"
@@ -80,18 +81,22 @@ func runC03(t *testing.T, r *engine.Run) {
 				if d[0].field != "" {
 					key += ":" + d[0].field
 				}
+				tail := 6
+				if os.Getenv("VERIF_DEBUG_LOGS") != "" {
+					tail = 1000
+				}
 				n := len(p.delta.recvLog)
-				for i := max(0, n-6); i < n; i++ {
+				for i := max(0, n-tail); i < n; i++ {
 					e := p.delta.recvLog[i]
 					r.Logf("  %s recv[%d] step=%d %s names=%v removed=%v", p.delta.name, i, e.step, shortType(e.typeURL), e.names, e.removed)
 				}
 				for _, c := range []*xdsClient{p.sotw, p.delta} {
-					for _, l := range c.sentLog[max(0, len(c.sentLog)-8):] {
+					for _, l := range c.sentLog[max(0, len(c.sentLog)-tail-2):] {
 						r.Logf("  %s sent: %s", c.name, l)
 					}
 				}
 				n = len(p.sotw.recvLog)
-				for i := max(0, n-6); i < n; i++ {
+				for i := max(0, n-tail); i < n; i++ {
 					e := p.sotw.recvLog[i]
 					r.Logf("  %s recv[%d] step=%d %s names=%v", p.sotw.name, i, e.step, shortType(e.typeURL), e.names)
 				}
@@ -112,7 +117,10 @@ func runC03(t *testing.T, r *engine.Run) {
 	for i := 0; i < nmut && !r.Failed() && !tp.Exhausted(); i++ {
 		// client-initiated subscription change mid-history: both twins drop one EDS name and subscribe to it
 		// again at once (two consecutive requests); the re-added name must be answered for both.
-		if tp.Bool(1, 6, "resub") {
+		// Only at a quiet point: a state-of-the-world request that crosses a response in flight carries a stale nonce
+		// and is ignored by the server as the protocol prescribes, after which the twins legitimately differ (the
+		// delta protocol processes subscription changes whatever the nonce) - that race is the protocol's, not C03's.
+		if tp.Bool(1, 6, "resub") && w.quiesce(inst, w.clients) {
 			p := pairs[tp.Choose(len(pairs), "resubpair")]
 			if names := sortedNames(p.sotw.state(v3.EndpointType).names); len(names) > 1 {
 				victim := names[tp.Choose(len(names), "victim")]
